@@ -335,7 +335,9 @@ PROPS["C20"] = {
 }
 
 # libFuzzer campaigns (thorough tier only): same decoders and oracles inside the target
-for _pid, _secs, _len in (("C01", 240, 400), ("C04", 180, 400), ("C06", 180, 512), ("C07", 240, 1024), ("C08", 180, 512), ("C10", 180, 512), ("C16", 180, 600), ("C17", 180, 1024)):
+for _pid, _secs, _len in (("C01", 240, 400), ("C02", 120, 400), ("C03", 120, 300), ("C04", 180, 400), ("C05", 120, 512), ("C06", 180, 512), ("C07", 240, 1024), ("C08", 180, 512),
+                          ("C09", 150, 512), ("C10", 180, 512), ("C11", 150, 1024), ("C12", 150, 1024), ("C13", 150, 1024), ("C14", 150, 512), ("C15", 120, 600), ("C16", 180, 600),
+                          ("C17", 180, 1024), ("C18", 120, 400), ("C19", 180, 1024)):
     PROPS[_pid]["fuzz_bins"] = ["build/bin/fz_" + _pid.lower()]
     PROPS[_pid]["fuzz_seconds"] = _secs
     PROPS[_pid]["fuzz_max_len"] = _len
